@@ -73,6 +73,32 @@ fn judge_quoted(s: &str) -> Verdict {
     }
 }
 
+/// The same format after (and before) other primaries: its segmentation is the one it has alone
+/// (nothing an earlier primary said - an attribute name, a pattern, a file name - may leak into it).
+pub fn judge_in_context(s: &str, context: &str, after: bool) -> Verdict {
+    if s.is_empty() || s.contains('\'') || fmtscan::has_undocumented_xattr_name(s) || fmtscan::scan(s).is_err() {
+        return Verdict::Skip("not a valid quoted format");
+    }
+    let alone = match catch(|| parse(&format!("-printf '{s}'"))) {
+        Ok(Ok((_, t))) => from_ast(&t),
+        _ => return Verdict::Skip("rejected alone (decided by the plain part)"),
+    };
+    let text = if after { format!("{context} -printf '{s}'") } else { format!("-printf '{s}' {context}") };
+    match catch(|| parse(&text)) {
+        Err(p) => Verdict::Fail(format!("parse panicked on {text:?}: {p}")),
+        Ok(Err(e)) => Verdict::Fail(format!("{text:?}: the format is valid alone but rejected here: {e}")),
+        Ok(Ok((_, t))) => {
+            let tree = from_ast(&t);
+            let found = tree.leaves().iter().any(|l| **l == alone);
+            if found {
+                Verdict::Pass { nt: true, class: "format next to other primaries: same segmentation" }
+            } else {
+                Verdict::Fail(format!("{text:?}: alone the format gives {alone:?}; here the tree is {tree:?}"))
+            }
+        }
+    }
+}
+
 fn case_json(s: &str) -> Value {
     json!({"kind": "format", "format": s, "input": format!("-printf '{s}'")})
 }
@@ -86,6 +112,9 @@ pub fn replay(case: &Value) -> Result<Verdict, String> {
             }
         }
         return Ok(Verdict::Pass { nt: true, class: "history" });
+    }
+    if case["kind"] == "format-context" {
+        return Ok(judge_in_context(case["format"].as_str().ok_or("format")?, case["context"].as_str().ok_or("context")?, case["after"].as_bool().unwrap_or(true)));
     }
     if case["kind"] == "fuzz-input" {
         return crate::fuzzrun::replay(case);
@@ -282,6 +311,25 @@ pub fn run(ctx: &Ctx) -> Report {
     }
     total.merge(st);
 
+    // every documented element (and a few longer formats) after and before primaries that carry
+    // strings related to it: attribute tests whose name ends with, begins with or equals the name
+    // of an attribute directive, patterns and files spelled like directives
+    let mut stc = Stats::new();
+    let contexts = ["-xattr trusted.lov", "-xattr lov", "-xattr user.tag", "-xattr-match trusted.fid v", "-xattr-match user x.user", "-name %p", "-name '%{fid}'", "-pool fid", "-fprint %p", "-fprintf f '%{xattr:lov}'", "-printf '%{xattr:trustedlov}'", "-iname 'A\\101'", "-name x -o -xattr a", "( -xattr user -o -xattr tag )", "-printf '%p\\c'", "-size 5k", "-true"];
+    let mut formats: Vec<String> = els.clone();
+    for f in ["%{xattr:lov}\\n", "%{xattr:tag}=%{xattr:user}", "%p %{xattr:a}", "%{xattr:fid}", "%{fid}", "%p\\n", "%%%p", "\\101%Ak"] {
+        formats.push(f.to_string());
+    }
+    for f in &formats {
+        for c in contexts {
+            for after in [true, false] {
+                let v = judge_in_context(f, c, after);
+                stc.record(&v, stable_hash(&(f, c, after)), true, || json!({"kind": "format-context", "format": f, "context": c, "after": after}));
+            }
+        }
+    }
+    stc.samples.truncate(1);
+    total.merge(stc);
     // every single-character edit of every documented element (replace by a neighbouring spelling
     // character, delete, duplicate, swap): an almost-directive is what the reference scanner says
     // it is, never the directive it resembles
